@@ -754,6 +754,14 @@ EXPECTED_CONSTS = dict(
 
 def run(tier, seed, replay=None):
     R = cm.Run(PID, "proof", tier, seed)
+    import time as _time
+    _t = [_time.time()]
+    R.cov["phase_seconds"] = {}
+
+    def _phase(name):
+        now = _time.time()
+        R.cov["phase_seconds"][name] = round(now - _t[0], 1)
+        _t[0] = now
     R.cov["rule"] = ("case = one collider object (10 kinds x streams: random general position / lattice poses "
                      "[24 axis permutations x optional exact 45-degree factor, sizes and offsets from {1/4,1/2,1,2,4}] / "
                      "exact [axis permutations only: every operation of model and code is exact]; 30% wrapped in Margin; "
@@ -781,6 +789,7 @@ def run(tier, seed, replay=None):
     sc.check_proofs_retry(R, PROOF_FILES, build_targets=["theories/Props/C03.vo", "theories/Model/ShapesRun.vo",
                                                "theories/Checker/ShapesCert.vo", "theories/Checker/ShapesMeshCone.vo"])
 
+    _phase("proofs")
     cases = []
     corpus = cm.VERIF / "corpus" / PID
     if replay:
@@ -791,12 +800,14 @@ def run(tier, seed, replay=None):
                 cases.append(json.loads(f.read_text())["case"])
         cases += gen_cases(R.rng, tier)
 
+    _phase("generate")
     hits = {}
     results, consts = run_impl_cases(cases, "impl", hits)
     if consts is not None:
         for k, v in EXPECTED_CONSTS.items():
             if consts.get(k) != v:
                 R.corr_broken.append(f"source constant {k} = {consts.get(k)!r} differs from the value the model uses ({v!r})")
+    _phase("implementation")
     n_eval = 0
     bad = []
     unbuilt = 0
@@ -822,6 +833,7 @@ def run(tier, seed, replay=None):
     if pyexc:
         R.notes.append(dict(interpreted_replay_errors=pyexc[:3], count=len(pyexc)))
 
+    _phase("oracle")
     # Coq-proven certificates on the implementation's answers
     jobs = []
     for ci, (c, r) in enumerate(zip(cases, results)):
@@ -858,6 +870,7 @@ def run(tier, seed, replay=None):
     cert["theorem"] = "Checker/ShapesCert.v support_cert_sound / support_cert_scaled_sound, Checker/Shapes.v in_shape_tol_sound"
     R.cov["certificates"] = cert
 
+    _phase("certificates")
     # model on the same cases
     exprs, idx = [], []
     n_large = 0
@@ -889,6 +902,7 @@ def run(tier, seed, replay=None):
     R.cov["queries_compared_exactly"] = stats.get("exact_queries", 0)
     R.cov["start_vertex_sweep_queries"] = stats.get("sweep_queries", 0)
 
+    _phase("model")
     # hypothesis of the partial mesh theorem, evaluated exactly on this run's meshes
     lmg = dict(pairs=0, LocalMaxGlobal_within_tolerance=0, LocalMaxGlobalS_with_delta_0=0, LocalMaxGlobalS_within_tolerance=0,
                worst_delta_S_over_L=0.0, unused_vertex_cases=0)
@@ -910,6 +924,7 @@ def run(tier, seed, replay=None):
                       "directions of every generated mesh; delta in units of x.d, tolerance 1e-9*L")
     R.cov["local_max_global"] = lmg
 
+    _phase("local_max_global")
     # per-mesh proof of the hypothesis: cone certificates checked by Coq (Checker/ShapesMeshCone.v)
     from . import shapes_meshcone as mc
     mcs = dict(meshes=0, submitted=0, accepted=0, no_certificate_flat_vertex=0, too_large_not_submitted=0, worst_M=0.0,
@@ -950,6 +965,7 @@ def run(tier, seed, replay=None):
         R.notes.append(dict(cone_certificate_evaluation_failed=str(e)[:500]))
     R.cov["mesh_cone_certificates"] = mcs
 
+    _phase("cone_certificates")
     cov = line_coverage(hits, TRACE_SCOPE)
     R.cov["impl_line_coverage"] = dict(
         executable=sum(v["executable"] for v in cov.values()), hit=sum(v["hit"] for v in cov.values()),
